@@ -6,10 +6,17 @@
     scenarios, blob histories) are replayed on a real source storage, copied (copyTransactionsFrom, BaseStorage.copy,
     into/out of blob-enabled storages, mapping -> file) and the copy's full query table - also after close/reopen -
     must equal the table TLC printed for the source history.
+(a') RANGES.  dst.copyTransactionsFrom(src.iterator(start)) for every start (ZRecover!CopyRange, RangeCopyFaithful): TLC
+    exhibits, with the deviation constants HintRaises / IterNoLoadBlob set to what the code does, a history and a start
+    whose range cannot be copied; the counterexamples are replayed on the real storages to choose the model of this
+    tree (a confirmed deviation is reported), and every range copy of the selected behaviours must then equal what TLC
+    (spec/ZRecoverRange.tla as evaluator) yields for that history, blob set and start.
 (b) FSRECOVER.  TLC checks the tool loop (spec/ZRecoverTool.tla) against Terminates, PrefixBeforeDamageRecovered,
     OutputIsOrderedSubsequenceOfInput; data files built from TLC histories are damaged at positions enumerated
     relative to item boundaries, fsrecover.recover runs under a watchdog with its calls recorded, and TLC
-    (spec/ZRecoverTrace.tla) validates every recorded run against the loop and judges the output.
+    (spec/ZRecoverTrace.tla) validates every recorded run against the loop and judges the output, record for record:
+    with EmitsCut (the code as it is) TLC exhibits an output transaction that lacks records of the input transaction;
+    directed runs (the transaction pointer of a first / second data-record header overwritten) decide the model.
 (c) SCAN.  TLC checks Terminates on the transcription of fsrecover.scan (spec/ZRecoverScan.tla) under weak fairness;
     the lasso it exhibits for the code as it is (F5) is confirmed on the real scan(), and every pattern of the
     model is replayed on byte files: returned position / end of file / hang must be what TLC computed.
@@ -118,11 +125,15 @@ def judge_copy(ctx, results, tag, cov):
         for a, n in r.get('actions', {}).items():
             cov['actions'][a] = cov['actions'].get(a, 0) + n
         if r['source_failed']:
+            # the SOURCE storage does not follow ZStorage on this behaviour (a store / undo / pack outcome): that is the
+            # subject of C04 / C06 / C07, not of C17 - there is no TLC table for what the source then holds, so the
+            # behaviour is not copied.  Counted and noted; too many of them is a machinery failure, never a pass.
             f = r['source_failed']
-            ctx.violation({'part': 'copy', 'source': 'mapping' if tag.startswith('mapping') else 'file', 'what': 'source-replay', 'action': f['action']},
-                          '[%s] the source storage diverges from ZStorage at step %d %s: %s (behaviour %s)' % (
-                              tag, f['step'], f['action'], '; '.join(f['detail']), ' '.join(r['sig'][:40])),
-                          replay={'tag': tag, 'prefix': r['sig']})
+            cov['source_diverged'] = cov.get('source_diverged', 0) + 1
+            if cov['source_diverged'] <= 3:
+                ctx.notes.append('[%s] source storage diverges from ZStorage at step %d %s: %s (behaviour %s) - not copied' % (
+                    tag, f['step'], f['action'], '; '.join(f['detail']), ' '.join(r['sig'][:40])))
+            continue
         seen_here = set()
         for m in r['mismatch']:
             import re
@@ -344,6 +355,9 @@ def part_copy(ctx, done, replay=True):
     judge_ranges(ctx, by, cov)
     cov.pop('_seen')
     cov['sample'] = results[1]['sig'][:30] if len(results) > 1 else []
+    if cov.get('source_diverged', 0) * 20 > cov['behaviours']:
+        raise RuntimeError('%d of %d source replays diverge from ZStorage (see C04/C06/C07): no basis for judging copies' % (
+            cov['source_diverged'], cov['behaviours']))
     for need in ('with_back', 'with_zero', 'with_packed', 'with_blobrecs'):
         if not cov.get(need):
             raise RuntimeError('vacuous: no copied history %s' % need.replace('_', ' '))
@@ -669,7 +683,8 @@ def run(ctx):
         'rule': '(a) TLC behaviours of ZStorage (commit-, undo-, pack-heavy simulation with the copy invariants checked in every state, '
                 'directed scenarios evaluated by TLC, half of them with blob records) replayed on a real source storage, copied '
                 '(copyTransactionsFrom, BaseStorage.copy, into a blob-enabled FileStorage, blob storage to blob storage, MappingStorage to '
-                'FileStorage) and the full query table of the copy, before and after reopen, compared with the table TLC printed; distinct '
+                'FileStorage) and the full query table of the copy, before and after reopen, compared with the table TLC printed; for a '
+                'third of them every range src.iterator(start) is copied too and compared with what TLC evaluates (ZRecoverRange); distinct '
                 'by action sequence, non-trivial = at least 2 committed transactions.  (b) data files of TLC histories damaged at positions '
                 'enumerated relative to item boundaries (quick) / at every byte (thorough), fsrecover.recover run under watchdogs with its '
                 'calls recorded, every recorded run validated by TLC against ZRecoverTool and its output judged (ZRecoverTrace); non-trivial '
@@ -685,6 +700,10 @@ def run(ctx):
                  'its back-pointers lead through; bytes the fill did not change are not damaged; an abnormal end of the tool while it '
                  'handles damaged bytes counts as an end (counted as crashes)',
                  '(b) single damaged range or truncation per run; fills 0x00, 0xff, \'.\', seeded noise',
+                 '(b) "record for record": an output transaction must have as many records as the input transaction it was read from; '
+                 'altered bytes inside a transaction that overlaps the damage stay exempt (no checksum in the format)',
+                 '(a) a behaviour on which the source storage itself diverges from ZStorage (C04/C06/C07) is not copied (counted; >5% is a machinery failure)',
+                 '(a) ranges: start only (iterator(start)); a data_txn is expected in the copy only where the transaction it names is in the range',
                  '(c) files are one fill byte (0x00 / 0xff) plus dots; scaled-down CHUNK configurations hand scan() a file object whose '
                  'read returns at most CHUNK bytes; hang = a third read at an unchanged position, more reads than bytes, or 10 s'])
 
